@@ -59,7 +59,10 @@ Norm(e)   == [e EXCEPT !.meta = PairSet(@), !.orig = Range(@), !.ua = Range(@)]
 NormPs(S) == {Norm(e) : e \in S}
 SamePs(a, b) == NormPs(a) = NormPs(b)
 
-\* environment: [follower, dmin, dmax, strat, ms, paths, blocks, fail, logfail]
+\* environment: [follower, dmin, dmax, strat, ms, paths, blocks, fail, logfail, deferred]
+\* env.deferred: the consensus component acknowledges LogPin/LogUnpin into a queue; State() (what pin(), Unpin(),
+\* PinUpdate() and Pins() read) shows only what has been committed; Flush commits the queue in order (crdt
+\* batching, a raft follower that lags behind)
 \* env.logfail: the <<kind, cid>> consensus operations (LogPin "pin" / LogUnpin "unpin") that fail at the moment
 LF(env) == {<<env.logfail[i][1], env.logfail[i][2]>> : i \in DOMAIN env.logfail}
 Resolve(env, path) == LET I == {i \in DOMAIN env.paths : env.paths[i][1] = path}
@@ -246,7 +249,7 @@ FaultResults(env, d, ps) ==
               log |-> [i \in 1..(k - 1) |-> <<"unpin", l[i]>>],
               failed |-> << <<"unpin", l[k]>> >>] : l \in Orders(d)}
 
-StepOK(env, ps, call, obs) ==
+StepNow(env, ps, call, obs) ==
     LET d == Decide(env, ps, call) IN
     IF Faulty(env, d)
     THEN \E r \in FaultResults(env, d, ps) :
@@ -357,7 +360,7 @@ UnpinEffect(env, ps, c, obs) ==
             THEN SamePs(obs.ps2, Without(ps, {c, e.ref} \cup Range(Links(env, e.ref))))   \* + cluster-DAG and shards
             ELSE SamePs(obs.ps2, Without(ps, {c}))                                         \* exactly that entry
 
-EffectOK(env, ps, call, obs) ==
+EffectNow(env, ps, call, obs) ==
     CASE call.op = "pin" ->
             IF call.o.upd # NoCid /\ call.o.upd # call.cid
             THEN UpdateEffect(env, ps, call.o.upd, call.cid, call.o, obs)
@@ -377,4 +380,79 @@ EffectOK(env, ps, call, obs) ==
             LET c == Resolve(env, call.path) IN
             IF c = NoCid THEN ~obs.ok /\ SamePs(obs.ps2, ps) ELSE UnpinEffect(env, ps, c, obs)
 
+(***************************************************************************)
+(* DEFERRED CONSENSUS                                                      *)
+(* Between two flushes the committed pinset ps0 does not change; win is    *)
+(* the sequence of [call, ok, ret] acknowledged since the last flush.      *)
+(***************************************************************************)
+\* TRANSCRIPTION.  Every call decides on the committed pinset exactly as in the immediate mode -- in particular the
+\* "same options" branch of pin() still SUBMITS LogPin(existing) -- and what it submits is queued, not applied.
+Virtual(d, ps, obs) ==
+    IF obs.ok /\ d.kind \in {"store", "alloc"} /\ Len(obs.ret) = 1 THEN Put(ps, AsStored(obs.ret[1]))
+    ELSE IF obs.ok /\ d.kind = "remove" THEN Without(ps, d.cids)
+    ELSE ps
+DeferStepOK(env, ps, call, obs) ==
+    LET d == Decide(env, ps, call) IN
+    /\ SamePs(obs.ps2, ps)                                   \* nothing is committed by the call itself
+    /\ obs.failed = <<>>
+    /\ StepOKOf(d, ps, [obs EXCEPT !.ps2 = Virtual(d, ps, obs)])
+\* Flush applies the queued operations in the order in which they were acknowledged
+RECURSIVE ApplyWin(_, _, _, _)
+ApplyWin(env, ps0, cur, win) ==
+    IF win = <<>> THEN cur
+    ELSE LET w == Head(win) IN
+         ApplyWin(env, ps0, Virtual(Decide(env, ps0, w.call), cur, w), Tail(win))
+FlushStepOK(env, ps0, win, psF) == SamePs(psF, ApplyWin(env, ps0, ps0, win))
+
+\* PROPERTY.  At a flushed state the pinset is the sequential application of the acknowledged successful calls:
+\* per CID the last successful call that is about it wins; calls that were refused change nothing.
+CidsOf(S) == {e.cid : e \in S}
+Targets(env, ps0, call) ==
+    CASE call.op = "pin"       -> {call.cid}
+      [] call.op = "rpcpin"    -> {call.p.cid}
+      [] call.op = "update"    -> {call.to}
+      [] call.op = "unpin"     -> UnpinGroup(env, ps0, call.cid)
+      [] call.op = "pinpath"   -> {Resolve(env, call.path)} \ {NoCid}
+      [] call.op = "unpinpath" -> IF Resolve(env, call.path) = NoCid THEN {} ELSE UnpinGroup(env, ps0, Resolve(env, call.path))
+LastWriter(env, ps0, win, x) ==
+    LET I == {i \in DOMAIN win : win[i].ok /\ x \in Targets(env, ps0, win[i].call)} IN
+    IF I = {} THEN 0 ELSE CHOOSE i \in I : \A j \in I : j <= i
+\* the entry n carries what the pin request p asked for (cluster defaults substituted)
+CarriesReq(env, n, p) ==
+    /\ n.type = p.type /\ n.name = p.name /\ n.depth = p.depth /\ n.mode = ModeOfDepth(p.depth)
+    /\ n.rmin = (IF p.rmin = 0 THEN env.dmin ELSE p.rmin) /\ n.rmax = (IF p.rmax = 0 THEN env.dmax ELSE p.rmax)
+    /\ n.exp = p.exp /\ PairSet(n.meta) = PairSet(p.meta) /\ Range(n.orig) = Range(p.orig) /\ n.ref = p.ref
+\* the entry n is a copy of the source as the update saw it (the committed pinset)
+CopiesSource(ps0, n, from, o) ==
+    /\ Has(ps0, from)
+    /\ LET s == Ent(ps0, from) IN
+       /\ n.type = s.type /\ n.depth = s.depth /\ n.mode = s.mode /\ n.rmin = s.rmin /\ n.rmax = s.rmax
+       /\ n.allocs = s.allocs /\ PairSet(n.meta) = PairSet(s.meta) /\ Range(n.orig) = Range(s.orig) /\ n.ref = s.ref
+       /\ n.name \in {s.name} \cup (IF o.name # "" THEN {o.name} ELSE {})
+       /\ n.exp \in {s.exp} \cup ({o.exp} \cap Future)
+WriterOK(env, ps0, call, x, psF) ==
+    IF call.op \in {"unpin", "unpinpath"} THEN ~Has(psF, x)                 \* the last word was "unpin": gone
+    ELSE /\ OneEntry(psF, x)                                                 \* the last word was a pin: there, as asked
+         /\ LET n == Ent(psF, x) IN
+            CASE call.op = "update" -> CopiesSource(ps0, n, call.from, call.o)
+              [] call.op = "rpcpin" -> IF call.p.upd # NoCid /\ call.p.upd # x THEN CopiesSource(ps0, n, call.p.upd, call.p)
+                                       ELSE CarriesReq(env, n, call.p)
+              [] OTHER -> IF call.o.upd # NoCid /\ call.o.upd # x THEN CopiesSource(ps0, n, call.o.upd, call.o)
+                          ELSE CarriesReq(env, n, ReqOf(x, call.o))
+FlushOK(env, ps0, win, psF) ==
+    \A x \in CidsOf(ps0) \cup CidsOf(psF) \cup UNION {Targets(env, ps0, win[i].call) : i \in DOMAIN win} :
+        LET k == LastWriter(env, ps0, win, x) IN
+        IF k = 0 THEN /\ Has(ps0, x) <=> Has(psF, x)                          \* nobody (successfully) asked: untouched
+                      /\ Has(ps0, x) => OneEntry(psF, x) /\ Norm(Ent(psF, x)) = Norm(Ent(ps0, x))
+        ELSE WriterOK(env, ps0, win[k].call, x, psF)
+
+\* ---- dispatch: immediate mode / deferred mode / flush ----
+EffectOK(env, ps, call, obs) ==
+    IF call.op = "flush" THEN FlushOK(env, ps, obs.win, obs.ps2)
+    ELSE IF env.deferred THEN TRUE                   \* judged at the next flush
+    ELSE EffectNow(env, ps, call, obs)
+StepOK(env, ps, call, obs) ==
+    IF call.op = "flush" THEN FlushStepOK(env, ps, obs.win, obs.ps2)
+    ELSE IF env.deferred THEN DeferStepOK(env, ps, call, obs)
+    ELSE StepNow(env, ps, call, obs)
 =============================================================================
